@@ -166,6 +166,13 @@ func marshal(m *Message, field reflect.Value, fieldAVP *dict.AVP) (error, []*AVP
 	}
 
 BASIC_TYPE:
+	// A field of type diam.AVP (or *diam.AVP, []diam.AVP) is taken as it is,
+	// whatever the data type of the AVP, as Unmarshal does.
+	if fieldType == reflect.TypeOf(AVP{}) {
+		p := reflect.New(fieldType)
+		p.Elem().Set(field)
+		return nil, append(avps, p.Interface().(*AVP))
+	}
 	switch fieldAVP.Data.Type {
 	case datatype.AddressType:
 		t = reflect.TypeOf((*datatype.Address)(nil)).Elem() // get Type of datatype.Address
@@ -199,17 +206,7 @@ BASIC_TYPE:
 		t = reflect.TypeOf((*datatype.Unsigned64)(nil)).Elem()
 	case datatype.GroupedType:
 		if field.Kind() == reflect.Struct {
-			// 1.  diam.AVP
-			// if fieldType.String() == "diam.AVP"
-			if fieldType == reflect.TypeOf(AVP{}) {
-				p := reflect.New(fieldType)
-				v := reflect.ValueOf(p).Elem()
-				v.Set(field)
-				avp := p.Interface().(*AVP)
-				return nil, append(avps, avp)
-			}
-
-			// 2. GroupedAVP
+			// GroupedAVP
 			gAVP := &GroupedAVP{}
 			for n := 0; n < field.NumField(); n++ {
 				f := field.Field(n)
